@@ -11,6 +11,27 @@ MUL_FIX = ["ep2_mul_fix", "ep2_mul_fix_basic", "ep2_mul_fix_combs", "ep2_mul_fix
 MUL_SIM = ["ep2_mul_sim", "ep2_mul_sim_basic", "ep2_mul_sim_trick", "ep2_mul_sim_inter", "ep2_mul_sim_joint"]
 
 
+class Budget:
+    """How many cases of an input class with a KNOWN wrong outcome (known finding) are generated per curve:
+    the quick tier keeps a couple of witnesses per class (each rejected event costs a confirmation run),
+    the thorough tier does not limit them."""
+
+    def __init__(self, limit=None):
+        self.limit, self.used = limit, {}
+
+    def take(self, *key):
+        if self.limit is None:
+            return True
+        n = self.used.get(key, 0)
+        if n >= self.limit:
+            return False
+        self.used[key] = n + 1
+        return True
+
+
+BUDGET = Budget(None)
+
+
 class Curve2(gen_ep.Curve):
     """What the generator knows about a pairing-friendly parameter set (from the driver's curve_probe event)."""
 
@@ -159,7 +180,11 @@ def cmp_cases(cv, rng, pairs, seeds):
     cases = []
     for (m1, m2) in pairs:
         s1, s2 = rng.choice([BASIC, PROJC, JACOB]), rng.choice([BASIC, PROJC, JACOB])
-        cases.append("ep2_cmp %s 0 %s %s" % (cv.spec, point_token(cv, m1, s1, rng), point_token(cv, m2, s2, rng)))
+        a, b = point_token(cv, m1, s1, rng), point_token(cv, m2, s2, rng)
+        if (a.startswith("inf0") != b.startswith("inf0")) and not (a.startswith("inf") and b.startswith("inf")) \
+                and not BUDGET.take(cv.spec, "cmp-zero-infinity"):
+            a, b = a.replace("inf0", "inf"), b.replace("inf0", "inf")       # (0:1:0) / (1:1:0) instead of (0:0:0)
+        cases.append("ep2_cmp %s 0 %s %s" % (cv.spec, a, b))
     for sd in seeds:
         s1, s2 = rng.choice([BASIC, PROJC, JACOB]), rng.choice([BASIC, PROJC, JACOB])
         cases.append("ep2_cmp %s 0 %s %s" % (cv.spec, seed_token("c", sd, cv, s1, rng),
@@ -250,8 +275,20 @@ def mul_cases(cv, rng, ks_for, point_ms, seeds=None, ops=None, pre="ep2"):
                 cases.append("%s %s %d %s %x" % (op, c, rng.choice([0, 1]), mul_point(cv, rng, point_ms, seeds), d))
         else:
             for k in ks:
+                if op == "ep2_mul_slide" and abs(k).bit_length() > cv.fpb + 1 and not BUDGET.take(c, "slide-long-scalar"):
+                    k = k % (cv.n << 1) - cv.n
                 cases.append("%s %s %d %s %s" % (op, c, rng.choice([0, 0, 1]), mul_point(cv, rng, point_ms, seeds), hx(k)))
     return cases
+
+
+def table_infinity(cv, op, mp, mq, k, m):
+    """does the table of ep2_mul_sim_trick / _joint for P = [mp]G2, Q = [mq]G2 contain the identity (known finding)?"""
+    if mp % cv.n == 0 or mq % cv.n == 0 or k == 0 or m == 0:
+        return False
+    if op.endswith("joint"):
+        return (mp - mq) % cv.n == 0 or (mp + mq) % cv.n == 0
+    w = 1 << (cv.wd // 2)
+    return any((i * mp + j * mq) % cv.n == 0 for i in range(w) for j in range(w) if i * w + j >= 2)
 
 
 def sim_cases(cv, rng, kpairs_for, point_ms, ops=None):
@@ -265,6 +302,9 @@ def sim_cases(cv, rng, kpairs_for, point_ms, ops=None):
                 continue
             mp = rng.choice(point_ms + [0])
             mq = rng.choice([rng.choice(point_ms), rng.choice(point_ms), mp, -mp, 0])       # also Q = P, Q = -P, identity
+            if op in ("ep2_mul_sim_trick", "ep2_mul_sim_joint") and table_infinity(cv, op, mp, mq, k, m) \
+                    and not BUDGET.take(c, op, "sim-table-infinity"):
+                mq = 7 * mp + 11 if mp else 5
             al = rng.choice([0, 0, 1, 2])
             if mp == mq and rng.random() < 0.4:
                 al = 3
